@@ -266,6 +266,7 @@ type Oblig struct {
 	Trivial bool
 	Res     *SolverResult
 	Cover   bool
+	Group   string    // obligations with the same group share their hypotheses (one path) and are first tried as one query
 	Env     *SpecEnv  // environment in which replay expressions are evaluated
 	Spec    *FuncSpec // contract the obligation belongs to
 }
